@@ -1,7 +1,8 @@
 (* Proofs/TrimWindowP.v — the sliding window is the last [cap] bytes of everything written, for any write
    sizes; the 4-byte trim writer emits everything but the last four bytes, for any chunking. *)
 From Coq Require Import List Arith Lia NArith.
-From WS Require Import Base.Words Model.Mask Model.Frame Model.Proto Model.Writer Model.Window.
+From WS Require Import Base.Words Model.Mask Model.Frame Model.Proto Model.Writer.
+From WS Require Export Model.Window.   (* trim_step / trim_run / sw_write live in the model; users of these proofs see them *)
 Import ListNotations.
 Close Scope N_scope.
 Open Scope nat_scope.
@@ -49,17 +50,6 @@ Proof. unfold sw_run.
       + rewrite sw_write_spec by exact Hb. rewrite lastn_length. lia. }
   rewrite G by (cbn; lia). reflexivity. Qed.
 
-(* ---------------- the trim writer (compress.go:94-134), as a pure function on (tail, chunk) ---------------- *)
-Definition trim_step (tail p : bytes) : list bytes * bytes :=
-  let lt := length tail in let lp := length p in
-  if Nat.leb (lt + lp) 4 then ([], tail ++ p)
-  else
-    let extra := Nat.min (lt + lp - 4) lt in
-    let o1 := if Nat.ltb 0 extra then [firstn extra tail] else [] in
-    let tail1 := skipn extra tail in
-    if Nat.leb lp 4 then (o1, tail1 ++ p)
-    else (o1 ++ [firstn (lp - 4) p], tail1 ++ skipn (lp - 4) p).
-
 (* whatever goes downstream plus the new tail is the old tail plus the chunk; the tail holds the last <= 4 bytes *)
 Theorem trim_step_spec tail p : length tail <= 4 ->
   let '(outs, tail') := trim_step tail p in
@@ -82,13 +72,6 @@ Proof. intro Ht. unfold trim_step. cbv zeta.
       * destruct tail; [|cbn in He; lia]. cbn [concat app]. rewrite app_nil_r, firstn_skipn, skipn_length. repeat split; [lia|].
         constructor; [|constructor]. intro X. apply (f_equal (@length N)) in X. rewrite firstn_length in X. cbn in X. lia.
 Qed.
-
-(* a whole stream of chunks: everything but the last four bytes goes downstream, in order; the tail is the last four *)
-Fixpoint trim_run (tail : bytes) (ps : list bytes) : list bytes * bytes :=
-  match ps with
-  | [] => ([], tail)
-  | p :: r => let '(o, t1) := trim_step tail p in let '(os, t2) := trim_run t1 r in (o ++ os, t2)
-  end.
 
 Theorem trim_run_spec : forall ps tail, length tail <= 4 ->
   let '(outs, tail') := trim_run tail ps in
